@@ -126,6 +126,11 @@ def schemas(rnd):
     out.append(("BM0", ("eq", rhs, ("add", k, t_)), "RL", ("eq", ("sub", rhs, k), t_), "shape-root"))
     cc = coef(rnd, False)
     out.append(("BM0", ("eq", ("mul", cc, V("x")), rhs), "LL", ("eq", ("div", ("mul", cc, V("x")), cc), ("div", rhs, cc)), "shape-root"))
+    # the coefficient's own side has no addition; the OTHER side is anything (a sum, a nested sum, a term): still divides both sides
+    for oth in (("add", C(rnd.choice([2, 3])), V("y")), ("mul", C(3), ("add", V("y"), C(1))), ("add", ("add", V("y"), ("mul", C(4), V("z"))), C(1)),
+                term(coef(rnd), "y", C(2)), ("sub", V("y"), ("add", V("z"), C(2)))):
+        out.append(("BM0", ("eq", ("mul", cc, V("x")), oth), "LL", ("eq", ("div", ("mul", cc, V("x")), cc), ("div", oth, cc)), "shape-root"))
+        out.append(("BM0", ("eq", oth, ("mul", cc, V("x"))), "RL", ("eq", ("div", oth, cc), ("div", ("mul", cc, V("x")), cc)), "shape-root"))
     out.append(("BM0", ("add", t_, k), "R", None, "reject"))                                            # not an equation
     # the addend anywhere in a longer sum, grouped at random, on either side
     others = [term(coef(rnd), rnd.choice("xyz"), rnd.choice([None, C(2)])) if rnd.random() < 0.6 else C(rnd.choice([1, 4, 9, -6])) for _ in range(rnd.randint(2, 5))]
